@@ -5,12 +5,26 @@
 pub mod arraymap {
     pub const CAP: usize = 8;
 
+    // slots are boxed so that recursive value types (PdfObject containing a PdfDictionary) have a size
     #[derive(Debug, Clone)]
     pub struct HashMap<K, V> {
-        pub slots: [Option<(K, V)>; CAP],
+        pub slots: Box<[Option<(K, V)>; CAP]>,
+    }
+    impl<K: Eq, V: PartialEq> PartialEq for HashMap<K, V> {
+        fn eq(&self, other: &Self) -> bool {
+            if self.len() != other.len() { return false; }
+            let mut i = 0;
+            while i < CAP {
+                if let Some((k, v)) = &self.slots[i] {
+                    match other.get(k) { Some(w) => { if v != w { return false; } } None => return false }
+                }
+                i += 1;
+            }
+            true
+        }
     }
     impl<K: Eq, V> HashMap<K, V> {
-        pub fn new() -> Self { Self { slots: [None, None, None, None, None, None, None, None] } }
+        pub fn new() -> Self { Self { slots: Box::new([None, None, None, None, None, None, None, None]) } }
         pub fn with_capacity(_n: usize) -> Self { Self::new() }
         fn find(&self, k: &K) -> Option<usize> {
             let mut i = 0;
